@@ -96,6 +96,18 @@ def kf_empty_host_eager(f):
     if obs.get("route") != "str":
         return False
     fields = obs["fields"]
+    step = obs.get("step")
+    if fields is None and isinstance(step, (list, tuple)) and len(step) == 3 and step[0] == "selfmod" and step[2] in ("with_host", "with_host_raw"):
+        # the same two values fed back as an argument: with_host("") is a ValueError, with_host(None) a TypeError
+        def _o(x):
+            x = x.get("v") if isinstance(x, dict) else x
+            return tuple(x) if isinstance(x, (list, tuple)) else x
+        if _o(obs.get("warm")) != ("exc", "ValueError") or _o(obs.get("pristine")) != ("exc", "TypeError"):
+            return False
+        auth = obs.get("raw_authority", None)
+        return auth is not None and (auth == "" or ref.split_authority(auth)[2] is None)
+    if fields is None:
+        return False
     if not set(fields) <= _HOST_DERIVED or "raw_host" not in fields:
         return False
     a, b = fields["raw_host"]
